@@ -15,7 +15,7 @@ import (
 // C26 — RTX unwrapping (rtpreceiver.go maybeStartRepairStreamReader / readRTX, track_remote.go read).
 //
 //	one <mtu> <pt> <ssrc> <start> <carried> <readLen> <n> <image>
-//	seq <mtu> <pt> <ssrc> <start> { f <carried> <n> <image> | r <readLen> | c }*
+//	seq <mtu> <pt> <ssrc> <start> { f <carried> <n> <image> | r <readLen> | p <pkthex> | s <ssrc> | c }*
 //
 // See lean/WebrtcVerif/Drv/C26.lean for the token meanings and the output format.
 
@@ -45,12 +45,25 @@ func c26ShowRead(pkt []byte, attrs interceptor.Attributes, err error) string {
 	if errors.Is(err, io.EOF) {
 		return "eof"
 	}
-	if err != nil {
-		return "error " + hx([]byte(err.Error()))
-	}
 	head := pkt
 	if len(head) > 96 {
 		head = head[:96]
+	}
+	if attrs.Get(webrtc.AttributeRtxPayloadType) == nil { // not unwrapped by the repair reader: a primary packet
+		kind := "pri"
+		switch {
+		case errors.Is(err, webrtc.ErrCodecNotFound):
+			kind = "pri-unknown-codec"
+		case errors.Is(err, webrtc.ErrVerifRTPTooShort):
+			kind = "pri-too-short"
+		case err != nil:
+			return "error " + hx([]byte(err.Error()))
+		}
+
+		return fmt.Sprintf("%s %s %s", kind, fnv64s(pkt), hx(head))
+	}
+	if err != nil {
+		return "error " + hx([]byte(err.Error()))
 	}
 	get := func(key any) string {
 		switch v := attrs.Get(key).(type) {
@@ -89,13 +102,14 @@ func c26Exec(a []string) string { //nolint:cyclop
 		return "bad-op"
 	}
 	type step struct {
-		feed    bool
-		stop    bool
+		kind    byte // f r p s c
 		carried bool
 		n       int
 		img     []byte
+		ssrc    uint32
 	}
 	steps := []step{}
+	primaries := 0
 	for i := 0; i < len(rest); {
 		switch {
 		case rest[i] == "f" && i+3 < len(rest):
@@ -104,14 +118,14 @@ func c26Exec(a []string) string { //nolint:cyclop
 			if err != nil || !ok || n < 0 || n > mtu || (rest[i+1] != "0" && rest[i+1] != "1") {
 				return "bad-op"
 			}
-			steps = append(steps, step{feed: true, carried: rest[i+1] == "1", n: n, img: img})
+			steps = append(steps, step{kind: 'f', carried: rest[i+1] == "1", n: n, img: img})
 			i += 4
 		case rest[i] == "c":
-			steps = append(steps, step{stop: true})
+			steps = append(steps, step{kind: 'c'})
 			i++
 			for j := i; j < len(rest); j++ {
 				if rest[j] == "f" {
-					return "bad-op" // the reader may be gone: only reads may follow
+					return "bad-op" // the reader may be gone: no repair reads may follow
 				}
 			}
 		case rest[i] == "r" && i+1 < len(rest):
@@ -119,7 +133,21 @@ func c26Exec(a []string) string { //nolint:cyclop
 			if err != nil || n < 0 {
 				return "bad-op"
 			}
-			steps = append(steps, step{n: n})
+			steps = append(steps, step{kind: 'r', n: n})
+			i += 2
+		case rest[i] == "p" && i+1 < len(rest):
+			primaries++
+			if primaries > 1000 {
+				return "bad-op"
+			}
+			steps = append(steps, step{kind: 'p', img: unhx(rest[i+1])})
+			i += 2
+		case rest[i] == "s" && i+1 < len(rest):
+			v, err := strconv.ParseUint(rest[i+1], 10, 32)
+			if err != nil {
+				return "bad-op"
+			}
+			steps = append(steps, step{kind: 's', ssrc: uint32(v)})
 			i += 2
 		default:
 			return "bad-op"
@@ -135,11 +163,17 @@ func c26Exec(a []string) string { //nolint:cyclop
 	}
 	outs := []string{}
 	for _, s := range steps {
-		switch {
-		case s.feed:
+		switch s.kind {
+		case 'f':
 			v.Feed(s.img, s.n, s.carried)
-		case s.stop:
+		case 'c':
 			if err := v.Stop(); err != nil {
+				return "error " + hx([]byte(err.Error()))
+			}
+		case 'p':
+			v.Primary(s.img)
+		case 's':
+			if err := v.Rebind(webrtc.SSRC(s.ssrc)); err != nil && !errors.Is(err, io.EOF) {
 				return "error " + hx([]byte(err.Error()))
 			}
 		default:
@@ -315,6 +349,24 @@ func c26Valid(r *rand.Rand, mtu int) *c26Pkt {
 	return pkt
 }
 
+// c26Primary draws a well-formed packet of the primary stream with payload type pt (hex).
+func c26Primary(r *rand.Rand, pt int) string {
+	pkt := c26Valid(r, 76)
+	pkt.pt = pt
+	img, _ := c26Image(pkt.spec(r), 76)
+	if r.Intn(30) == 0 {
+		img = img[:r.Intn(3)] // a runt: checkAndUpdateTrack sees a zero second byte
+	}
+
+	return hx(img)
+}
+
+// c26PrimaryPT picks payload types a primary stream may switch between: 0, the usual dynamic ones, values
+// the hook's MediaEngine has no codec for (7, 127), anything.
+func c26PrimaryPT(r *rand.Rand) int {
+	return c26Pick(r, 0, 0, 96, 96, 98, 98, 100, 111, 35, 7, 127, r.Intn(128))
+}
+
 func c26Mtu(r *rand.Rand) int {
 	switch r.Intn(10) {
 	case 0:
@@ -455,8 +507,11 @@ func init() { //nolint:gocognit,cyclop
 			"truncations at every header boundary, n beyond the packet, n = 0..12 over stale P/X bits, random bytes, " +
 			"flipped first byte; read buffers mostly MTU, sometimes 0..n; primary payload type 0..127 (rarely ≥ 128, " +
 			"unconstrained), primary SSRC incl. 0 and 2^32-1. seq: exactly 48..52 deliverable packets waiting then all " +
-			"read back; random histories of up to 120 feeds and reads incl. more than 50 waiting packets and " +
-			"RTPReceiver.Stop before the last reads. Non-trivial: distinct op lines except single reads of n < 12 and " +
+			"read back; histories in which the primary stream delivers packets with changing payload types (0, 96, 98, 100, " +
+			"111, 35, unknown codecs 7/127, random; runts) through the real checkAndUpdateTrack and is re-bound with " +
+			"a new SSRC (receiveForRid) between retransmissions, initial payload type 0 in a third of them, repair reads and " +
+			"track reads interleaved; random histories of up to 120 feeds, reads, primary packets, rebinds incl. more " +
+			"than 50 waiting packets and RTPReceiver.Stop before the last reads. Non-trivial: distinct op lines except single reads of n < 12 and " +
 			"histories without a read.",
 		Gen: func(c *Ctx) {
 			r := c.Rng
@@ -514,6 +569,47 @@ func init() { //nolint:gocognit,cyclop
 					c.Emit("%s", sb.String())
 				}
 			}
+			// the primary stream changes its payload type (and SSRC) between retransmissions; reads and repair
+			// reads interleaved arbitrarily (feed k, read j)
+			for i := 0; i < c.N(400, 8000); i++ {
+				mtu := c26Mtu(r)
+				sb := strings.Builder{}
+				cfg := c26Cfg(r, mtu)
+				if r.Intn(3) == 0 { // the track has not seen a primary packet yet: payload type 0
+					f := strings.Fields(cfg)
+					f[1] = "0"
+					cfg = strings.Join(f, " ")
+				}
+				fmt.Fprintf(&sb, "seq %s", cfg)
+				waiting := 0
+				for round := 1 + r.Intn(5); round > 0; round-- {
+					if r.Intn(6) != 0 {
+						for ; waiting > 0; waiting-- { // drain, so that the next read reaches the primary stream
+							fmt.Fprintf(&sb, " r %d", mtu)
+						}
+						fmt.Fprintf(&sb, " p %s r %d", c26Primary(r, c26PrimaryPT(r)), c26Pick(r, mtu, mtu, mtu, 1, 2, 12))
+					}
+					if r.Intn(5) == 0 {
+						fmt.Fprintf(&sb, " s %d", r.Uint32())
+					}
+					for k := r.Intn(4); k > 0; k-- {
+						pkt := c26Valid(r, min(mtu, 120)-2)
+						if pkt.payloadLen < 2 && r.Intn(4) != 0 {
+							pkt.payloadLen = 2
+						}
+						fmt.Fprintf(&sb, " f %d %d %s", r.Intn(2), pkt.length(), pkt.spec(r))
+						waiting++
+						if r.Intn(3) == 0 {
+							fmt.Fprintf(&sb, " r %d", mtu)
+							waiting = max(0, waiting-1)
+						}
+					}
+				}
+				for k := waiting + r.Intn(2); k > 0; k-- {
+					fmt.Fprintf(&sb, " r %d", mtu)
+				}
+				c.Emit("%s", sb.String())
+			}
 			// histories
 			for i := 0; i < c.N(250, 6000); i++ {
 				mtu := c26Mtu(r)
@@ -528,6 +624,16 @@ func init() { //nolint:gocognit,cyclop
 					feed := r.Intn(5) < 3
 					if burst {
 						feed = k < 49+r.Intn(8) || r.Intn(4) == 0
+					}
+					if !burst && r.Intn(8) == 0 {
+						fmt.Fprintf(&sb, " p %s", c26Primary(r, c26PrimaryPT(r)))
+
+						continue
+					}
+					if !burst && r.Intn(25) == 0 {
+						fmt.Fprintf(&sb, " s %d", r.Uint32())
+
+						continue
 					}
 					if !feed {
 						fmt.Fprintf(&sb, " r %d", c26ReadLen(r, mtu, 40))
@@ -557,6 +663,10 @@ func init() { //nolint:gocognit,cyclop
 		Exec: c26Exec,
 		Class: func(a []string, out string) string {
 			if a[0] == "seq" {
+				if strings.Contains(out, "pri") {
+					return "seq with primary reads"
+				}
+
 				return "seq"
 			}
 			if len(a) < 9 {
@@ -588,7 +698,7 @@ func init() { //nolint:gocognit,cyclop
 		},
 		Trivial: func(a []string, out string) bool {
 			if a[0] == "seq" {
-				return !strings.Contains(out, "rtx") && !strings.Contains(out, "none")
+				return !strings.Contains(out, "rtx") && !strings.Contains(out, "none") && !strings.Contains(out, "pri")
 			}
 			if len(a) < 9 {
 				return true
